@@ -11,6 +11,7 @@ import (
 	"sync/atomic"
 	"time"
 
+	pbredis "github.com/samaritan-proxy/samaritan/pb/config/protocol/redis"
 	"github.com/samaritan-proxy/samaritan/proc/redis/hotkey"
 
 	"verifharness/internal/cli"
@@ -39,6 +40,9 @@ type e2eSummary struct {
 	Accessed  int    `json:"accessed"`
 	Requests  int64  `json:"requests"`
 	CollectMs int    `json:"collect_ms"`
+	Gated     int    `json:"gated"`     // HOTKEY replies that waited behind a gated request
+	GatedOps  int64  `json:"gated_ops"` // large values written / read by other clients meanwhile
+	Compress  bool   `json:"compression"`
 }
 
 var hotLine = regexp.MustCompile(`^counter: (\d+)  keyname: (.*)$`)
@@ -84,6 +88,8 @@ func e2eRun(args []string) error {
 	out := fs.String("out", "", "reports (ndjson)")
 	collectMs := fs.Int("collect-ms", 25, "collect interval of the processor's collector")
 	storms := fs.Int("storms", 8, "number of hot-key storms")
+	gated := fs.Int("gated", 40, "HOTKEY requests pipelined behind a gated request while other clients move large values")
+	rampDiv := fs.Int("ramp-div", 3, "key i of the ramp is accessed 1+i*i/ramp-div times")
 	if err := fs.Parse(args); err != nil {
 		return err
 	}
@@ -101,7 +107,9 @@ func e2eRun(args []string) error {
 		return err
 	}
 	defer cl.Close()
-	p, err := sut.StartRedis(sut.RedisOpts{}, cl.Addrs()[:3])
+	// value compression is on: the compress filter shares the package's buffer pool with the handlers
+	p, err := sut.StartRedis(sut.RedisOpts{Compression: &pbredis.Compression{
+		Enable: true, Algorithm: pbredis.Compression_SNAPPY, Threshold: 64}}, cl.Addrs()[:3])
 	if err != nil {
 		return err
 	}
@@ -147,14 +155,17 @@ func e2eRun(args []string) error {
 
 	seq := 0
 	distinct := map[string]bool{}
-	sum := e2eSummary{Summary: "e2e", CollectMs: *collectMs}
+	sum := e2eSummary{Summary: "e2e", CollectMs: *collectMs, Compress: true}
 	var wmu sync.Mutex
+	var record func(text, phase string) error
 	ask := func(c *sut.Client, phase string) error {
 		v, err := c.Do(5*time.Second, "hotkey")
 		if err != nil {
 			return err
 		}
-		text := string(v.Str)
+		return record(string(v.Str), phase)
+	}
+	record = func(text, phase string) error {
 		rep := e2eReport{Phase: phase}
 		rep.Declared, rep.Entries, rep.Parse = parseHotKey(text)
 		accMu.Lock()
@@ -208,7 +219,7 @@ func e2eRun(args []string) error {
 		keys[i] = fmt.Sprintf("hk:%02d", i)
 	}
 	for i, k := range keys {
-		n := 1 + i*i/3
+		n := 1 + i*i / *rampDiv
 		if err := access(c1, k, n); err != nil {
 			return err
 		}
@@ -250,6 +261,79 @@ func e2eRun(args []string) error {
 	wg.Wait()
 	if askErr != nil {
 		return askErr
+	}
+	// phase 4: HOTKEY pipelined behind a request that the backend holds back: the HOTKEY reply waits in the
+	// session's queue while other clients write and read large (compressed) values
+	if *gated > 0 {
+		slow := cl.KeyFor(0, "gate")
+		accMu.Lock()
+		accessed[slow] = true
+		accMu.Unlock()
+		var movers []*sut.Client
+		var bigKeys []string
+		for i := 0; i < 3; i++ {
+			m, err := sut.Dial(p.Addr)
+			if err != nil {
+				return err
+			}
+			defer m.Close()
+			movers = append(movers, m)
+			k := cl.KeyFor(1+i%2, fmt.Sprintf("big%d", i))
+			bigKeys = append(bigKeys, k)
+			accMu.Lock()
+			accessed[k] = true
+			accMu.Unlock()
+		}
+		big := strings.Repeat("0123456789abcdef", 200)
+		var gatedOps int64
+		for g := 0; g < *gated; g++ {
+			cl.Nodes[0].SetGate(true)
+			if err := c1.Send(append(resp.Bytes(resp.Cmd("get", slow)), resp.Bytes(resp.Cmd("hotkey"))...)); err != nil {
+				return err
+			}
+			if !cl.Nodes[0].WaitPending(1, 2*time.Second) {
+				cl.Nodes[0].SetGate(false)
+				return fmt.Errorf("gated request did not reach the backend")
+			}
+			var mg sync.WaitGroup
+			var merr error
+			for i, m := range movers {
+				mg.Add(1)
+				go func(i int, m *sut.Client) {
+					defer mg.Done()
+					for j := 0; j < 12; j++ {
+						if _, err := m.Do(5*time.Second, "set", bigKeys[i], big+sut.Itoa(g*100+j)); err != nil {
+							merr = err
+							return
+						}
+						if _, err := m.Do(5*time.Second, "get", bigKeys[i]); err != nil {
+							merr = err
+							return
+						}
+						atomic.AddInt64(&gatedOps, 2)
+						atomic.AddInt64(&requests, 2)
+					}
+				}(i, m)
+			}
+			mg.Wait()
+			cl.Nodes[0].SetGate(false)
+			if merr != nil {
+				return merr
+			}
+			if _, err := c1.Recv(5 * time.Second); err != nil {
+				return err
+			}
+			v, err := c1.Recv(5 * time.Second)
+			if err != nil {
+				return err
+			}
+			atomic.AddInt64(&requests, 1)
+			if err := record(string(v.Str), "gated"); err != nil {
+				return err
+			}
+			sum.Gated++
+		}
+		sum.GatedOps = gatedOps
 	}
 	if err := ask(c2, "final"); err != nil {
 		return err
